@@ -220,7 +220,29 @@ func (a *BigInt) M__imul__(other Object) (Object, error) {
 	return a.M__mul__(other)
 }
 
+// trueDiv returns a / b as a Float, correctly rounded however big a
+// and b are
+func (a *BigInt) trueDiv(b *BigInt) (Object, error) {
+	aBig, bBig := (*big.Int)(a), (*big.Int)(b)
+	if bBig.Sign() == 0 {
+		return nil, divisionByZero
+	}
+	// Rat holds the quotient exactly so Float64 rounds only once
+	f, _ := new(big.Rat).SetFrac(aBig, bBig).Float64()
+	if math.IsInf(f, 0) {
+		return nil, ExceptionNewf(OverflowError, "integer division result too large for a float")
+	}
+	if f == 0 && (aBig.Sign() < 0) != (bBig.Sign() < 0) {
+		// 0 / -1 and -1 / 10**400 are -0.0
+		f = math.Copysign(0, -1)
+	}
+	return Float(f), nil
+}
+
 func (a *BigInt) M__truediv__(other Object) (Object, error) {
+	if b, ok := ConvertToBigInt(other); ok {
+		return a.trueDiv(b)
+	}
 	b, err := MakeFloat(other)
 	if err != nil {
 		return nil, err
@@ -237,6 +259,9 @@ func (a *BigInt) M__truediv__(other Object) (Object, error) {
 }
 
 func (a *BigInt) M__rtruediv__(other Object) (Object, error) {
+	if b, ok := ConvertToBigInt(other); ok {
+		return b.trueDiv(a)
+	}
 	b, err := MakeFloat(other)
 	if err != nil {
 		return nil, err
